@@ -73,6 +73,16 @@ pub fn replay(path: &str) -> i32 {
             kv.insert(line[..i].trim().to_string(), line[i + 1..].trim().to_string());
         }
     }
+    if kv.get("case").map_or(false, |c| c.starts_with("packed ")) {
+        let r = std::panic::catch_unwind(std::panic::AssertUnwindSafe(|| run_packed(&kv)));
+        return match r {
+            Ok(code) => code,
+            Err(_) => {
+                println!("replay panicked inside the crate -> VIOLATION REPRODUCES (panic)");
+                1
+            }
+        };
+    }
     let case = parse_case(kv.get("case").expect("case"));
     let pats = case.pats.clone();
     let rp = Rp { kv, case, pats };
@@ -82,6 +92,62 @@ pub fn replay(path: &str) -> i32 {
         Err(_) => {
             println!("replay panicked inside the crate -> VIOLATION REPRODUCES (panic)");
             1
+        }
+    }
+}
+
+fn run_packed(kv: &BTreeMap<String, String>) -> i32 {
+    use aho_corasick::Span;
+    let spec = crate::parse_packed(kv.get("case").unwrap());
+    let srch = crate::build_packed(&spec).expect("packed searcher");
+    let pats: Vec<&[u8]> = spec.pats.iter().map(|p| &p[..]).collect();
+    let us = |k: &str| kv.get(k).unwrap_or_else(|| panic!("replay file lacks {}", k)).parse::<usize>().unwrap();
+    match kv.get("template").map(|s| s.as_str()).unwrap_or("") {
+        "pk_find" => {
+            let hay = unhex(kv.get("hay").unwrap());
+            let (s, e) = (us("s"), us("e"));
+            let got = tup(srch.find_in(&hay, Span { start: s, end: e }));
+            let want = oracle::leftmost(&pats, &hay, s, e, spec.kind, false, false);
+            report("packed find_in", &got, &want, got != want)
+        }
+        "pk_iter" => {
+            let hay = unhex(kv.get("hay").unwrap());
+            let (s, e) = (us("s"), us("e"));
+            // public API: iterate over the sub-slice hay[..e] from a haystack that starts at s
+            let sub = &hay[s..e];
+            let got: Vec<M> = srch.find_iter(sub).map(|m| (m.pattern().as_usize(), m.start() + s, m.end() + s)).collect();
+            let mut want = vec![];
+            let mut pos = s;
+            while let Some(m) = oracle::leftmost(&pats, &hay, pos, e, spec.kind, false, false) {
+                want.push(m);
+                pos = m.2;
+            }
+            report("packed find_iter", &got, &want, got != want)
+        }
+        "pk_span" => {
+            let hay = unhex(kv.get("hay").unwrap());
+            let other = unhex(kv.get("other").unwrap());
+            let (s, e) = (us("s"), us("e"));
+            let sub = hay[s..e].to_vec();
+            let mix: Vec<u8> = (0..hay.len()).map(|i| if i >= s && i < e { hay[i] } else { other[i] }).collect();
+            let r1 = tup(srch.find_in(&hay, Span { start: s, end: e }));
+            let r2 = tup(srch.find_in(&sub, Span { start: 0, end: sub.len() })).map(|m| (m.0, m.1 + s, m.2 + s));
+            let r3 = tup(srch.find_in(&mix, Span { start: s, end: e }));
+            report("packed span vs sub-slice vs outside bytes", &(r1, r3), &(r2, r2), r1 != r2 || r1 != r3)
+        }
+        "pk_teddy" => {
+            let (len, off, pad) = (us("len"), us("off"), us("pad") as u8);
+            let w = unhex(kv.get("w").unwrap());
+            let s = us("s");
+            let mut hay = vec![pad; len];
+            hay[off..off + w.len()].copy_from_slice(&w);
+            let got = tup(srch.find_in(&hay, Span { start: s, end: len }));
+            let want = oracle::leftmost(&pats, &hay, s, len, spec.kind, false, false);
+            report("Teddy find_in", &got, &want, got != want)
+        }
+        t => {
+            eprintln!("no native replay for packed template {}", t);
+            2
         }
     }
 }
@@ -157,11 +223,202 @@ fn run(rp: &Rp) -> i32 {
             let want = oracle::exists(&pats, &hay, s, e, an, ci);
             report("is_match", &got, &want, got != want)
         }
+        "span" => {
+            let (s, e) = (rp.usize("s"), rp.usize("e"));
+            let other = rp.bytes("other");
+            let ac = rp.ac();
+            let sub = hay[s..e].to_vec();
+            let mix: Vec<u8> = (0..hay.len()).map(|i| if i >= s && i < e { hay[i] } else { other[i] }).collect();
+            let r1 = tup(ac.try_find(input(rp, &hay, s, e)).expect("try_find"));
+            let r2 = tup(ac.try_find(input(rp, &sub, 0, sub.len())).expect("try_find")).map(|m| (m.0, m.1 + s, m.2 + s));
+            let r3 = tup(ac.try_find(input(rp, &mix, s, e)).expect("try_find"));
+            let r4 = if e < hay.len() { tup(ac.try_find(input(rp, &hay, e + 1, e)).expect("try_find")) } else { None };
+            let inside = r1.map_or(true, |m| m.1 >= s && m.2 <= e);
+            report("span vs sub-slice vs outside bytes", &(r1, r3, r4), &(r2, r2, None::<M>), r1 != r2 || r1 != r3 || r4.is_some() || !inside)
+        }
+        "span_ov" => {
+            let (s, e) = (rp.usize("s"), rp.usize("e"));
+            let other = rp.bytes("other");
+            let ac = rp.ac();
+            let sub = hay[s..e].to_vec();
+            let mix: Vec<u8> = (0..hay.len()).map(|i| if i >= s && i < e { hay[i] } else { other[i] }).collect();
+            let (mut s1, mut s2, mut s3) = (OverlappingState::start(), OverlappingState::start(), OverlappingState::start());
+            let mut bad = false;
+            let mut obs = vec![];
+            for _ in 0..2 {
+                ac.try_find_overlapping(input(rp, &hay, s, e), &mut s1).unwrap();
+                ac.try_find_overlapping(input(rp, &sub, 0, sub.len()), &mut s2).unwrap();
+                ac.try_find_overlapping(input(rp, &mix, s, e), &mut s3).unwrap();
+                let (a, b, c) = (tup(s1.get_match()), tup(s2.get_match()).map(|m| (m.0, m.1 + s, m.2 + s)), tup(s3.get_match()));
+                if a != b || a != c {
+                    bad = true;
+                }
+                obs.push((a, b, c));
+            }
+            report("overlapping span vs sub-slice vs outside bytes", &obs, &"all three equal", bad)
+        }
+        "recipe" => {
+            let n = rp.usize("n");
+            let h = &hay[..n];
+            let (got, want) = match rp.get("kind") {
+                "dfa" => {
+                    let mut b = aho_corasick::dfa::DFA::builder();
+                    b.match_kind(crate::mk_of(mk)).ascii_case_insensitive(ci).prefilter(rp.case.pf).byte_classes(rp.case.bc).start_kind(crate::sk_of(rp.case.sk));
+                    let a = b.build(&rp.pats).expect("build");
+                    (recipe(&a, h), tup(aho_corasick::automaton::Automaton::try_find(&a, &Input::new(h)).unwrap()))
+                }
+                "cnfa" => {
+                    let mut b = aho_corasick::nfa::contiguous::NFA::builder();
+                    b.match_kind(crate::mk_of(mk)).ascii_case_insensitive(ci).prefilter(rp.case.pf).byte_classes(rp.case.bc);
+                    if let Some(dd) = rp.case.dd { b.dense_depth(dd); }
+                    let a = b.build(&rp.pats).expect("build");
+                    (recipe(&a, h), tup(aho_corasick::automaton::Automaton::try_find(&a, &Input::new(h)).unwrap()))
+                }
+                _ => {
+                    let mut b = aho_corasick::nfa::noncontiguous::NFA::builder();
+                    b.match_kind(crate::mk_of(mk)).ascii_case_insensitive(ci).prefilter(rp.case.pf);
+                    if let Some(dd) = rp.case.dd { b.dense_depth(dd); }
+                    let a = b.build(&rp.pats).expect("build");
+                    (recipe(&a, h), tup(aho_corasick::automaton::Automaton::try_find(&a, &Input::new(h)).unwrap()))
+                }
+            };
+            report("documented recipe vs built-in", &got, &want, got != want)
+        }
+        "sim" => replay_sim(rp),
         t => {
             eprintln!("no native replay for template {}", t);
             2
         }
     }
+}
+
+fn recipe<A: aho_corasick::automaton::Automaton>(aut: &A, haystack: &[u8]) -> Option<M> {
+    use aho_corasick::MatchKind;
+    let mut sid = aut.start_state(Anchored::No).unwrap();
+    let mut at = 0;
+    let mut mat = None;
+    let get_match = |sid, at: usize| {
+        let pid = aut.match_pattern(sid, 0);
+        let len = aut.pattern_len(pid);
+        (pid.as_usize(), at - len, at)
+    };
+    if aut.is_match(sid) {
+        mat = Some(get_match(sid, at));
+        if matches!(aut.match_kind(), MatchKind::Standard) {
+            return mat;
+        }
+    }
+    while at < haystack.len() {
+        sid = aut.next_state(Anchored::No, sid, haystack[at]);
+        if aut.is_special(sid) {
+            if aut.is_dead(sid) {
+                return mat;
+            } else if aut.is_match(sid) {
+                mat = Some(get_match(sid, at + 1));
+                if matches!(aut.match_kind(), MatchKind::Standard) {
+                    return mat;
+                }
+            }
+        }
+        at += 1;
+    }
+    mat
+}
+
+/// Replay of a simulation-step counterexample: rebuild the three automata
+/// with the real builders, recompute the relation with the native product
+/// walk, and re-check the rows lo..hi with the solver's bytes.
+fn replay_sim(rp: &Rp) -> i32 {
+    use aho_corasick::automaton::{Automaton, StateID};
+    let b = crate::build(&rp.case);
+    let n = aho_corasick::verif::ac::as_nnfa(&b.ac_n).unwrap();
+    let c = aho_corasick::verif::ac::as_cnfa(&b.ac_c).unwrap();
+    let d = aho_corasick::verif::ac::as_dfa(&b.ac_d).unwrap();
+    let an = if rp.flag("anchored") { Anchored::Yes } else { Anchored::No };
+    let (rel, _wit, conflicts) = crate::product(n, c, d, an);
+    if !conflicts.is_empty() {
+        println!("native product walk finds conflicting partners: {:?} -> VIOLATION REPRODUCES", &conflicts[..1]);
+        return 1;
+    }
+    let rows: Vec<(u32, u32, u32)> = rel.iter().map(|(k, (x, y))| (*k, *x, *y)).collect();
+    let (lo, hi) = (rp.usize("lo"), rp.usize("hi"));
+    let pair = rp.get("pair").to_string();
+    let sid = |x: u32| StateID::new_unchecked(x as usize);
+    let mut bad = vec![];
+    for i in lo..hi.min(rows.len()) {
+        let byte = rp.kv.get(&format!("b{}", i)).map(|v| v.parse::<u8>().unwrap()).unwrap_or(0);
+        let k = rp.kv.get(&format!("k{}", i)).map(|v| v.parse::<usize>().unwrap()).unwrap_or(0);
+        let (rn, rc, rd) = rows[i];
+        let tn = n.next_state(an, sid(rn), byte);
+        let tc = c.next_state(an, sid(rc), byte);
+        let td = if rd != u32::MAX { Some(d.next_state(an, sid(rd), byte)) } else { None };
+        let partner = rel.get(&tn.as_u32());
+        let obs = |what: &str, x: String, y: String, bad: &mut Vec<String>| {
+            if x != y {
+                bad.push(format!("row {} byte {:02x}: {} differs: {} vs {}", i, byte, what, x, y));
+            }
+        };
+        match partner {
+            None => bad.push(format!("row {} byte {:02x}: successor {:?} outside the relation", i, byte, tn)),
+            Some(&(pc, pd)) => {
+                if pair != "nd" {
+                    obs("cnfa successor", format!("{}", pc), format!("{}", tc.as_u32()), &mut bad);
+                }
+                if let Some(td) = td {
+                    if pair != "nc" {
+                        obs("dfa successor", format!("{}", pd), format!("{}", td.as_u32()), &mut bad);
+                    }
+                }
+            }
+        }
+        obs("is_match n/c", format!("{}", n.is_match(tn)), format!("{}", c.is_match(tc)), &mut bad);
+        obs("is_special n/c", format!("{}", n.is_special(tn)), format!("{}", c.is_special(tc)), &mut bad);
+        obs("is_dead n/c", format!("{}", n.is_dead(tn)), format!("{}", c.is_dead(tc)), &mut bad);
+        if let Some(td) = td {
+            obs("is_match n/d", format!("{}", n.is_match(tn)), format!("{}", d.is_match(td)), &mut bad);
+            obs("is_special n/d", format!("{}", n.is_special(tn)), format!("{}", d.is_special(td)), &mut bad);
+            obs("is_dead n/d", format!("{}", n.is_dead(tn)), format!("{}", d.is_dead(td)), &mut bad);
+            obs("is_start n/d", format!("{}", n.is_start(tn)), format!("{}", d.is_start(td)), &mut bad);
+        }
+        if n.is_match(tn) && c.is_match(tc) {
+            let (ln, lc) = (n.match_len(tn), c.match_len(tc));
+            obs("match_len n/c", format!("{}", ln), format!("{}", lc), &mut bad);
+            if ln == 0 {
+                bad.push(format!("row {}: match state without a pattern", i));
+            }
+            for kk in 0..ln.min(lc) {
+                let _ = k;
+                obs("match_pattern n/c", format!("{:?}", n.match_pattern(tn, kk)), format!("{:?}", c.match_pattern(tc, kk)), &mut bad);
+                if n.match_pattern(tn, kk).as_usize() >= rp.pats.len() {
+                    bad.push(format!("row {}: invalid pattern id", i));
+                }
+            }
+            if let Some(td) = td {
+                if d.is_match(td) {
+                    let ld = d.match_len(td);
+                    obs("match_len n/d", format!("{}", ln), format!("{}", ld), &mut bad);
+                    for kk in 0..ln.min(ld) {
+                        obs("match_pattern n/d", format!("{:?}", n.match_pattern(tn, kk)), format!("{:?}", d.match_pattern(td, kk)), &mut bad);
+                    }
+                }
+            }
+        }
+        for (nm, is_dead, is_match, is_special, is_start) in [
+            ("nnfa", n.is_dead(tn), n.is_match(tn), n.is_special(tn), n.is_start(tn)),
+            ("cnfa", c.is_dead(tc), c.is_match(tc), c.is_special(tc), c.is_start(tc)),
+        ] {
+            if (is_dead || is_match) && !is_special {
+                bad.push(format!("row {}: {} dead/match state not special", i, nm));
+            }
+            if is_special && !(is_dead || is_match || is_start) {
+                bad.push(format!("row {}: {} special state is neither dead, match nor start", i, nm));
+            }
+        }
+        if n.is_dead(sid(rn)) && !(n.is_dead(tn) && c.is_dead(tc)) {
+            bad.push(format!("row {}: dead state not absorbing", i));
+        }
+    }
+    report("simulation step on the natively built automata", &bad, &"no difference", !bad.is_empty())
 }
 
 /// Oracle self-test: rows `mk|ci|overlapping|anchored|hexpat,..|hexhay|pid:s:e,..` taken
